@@ -14,11 +14,18 @@ import (
 	"verifharness/universe"
 )
 
-const testdataDir = "/repo/util/resolve/npm/testdata/"
+// repoRoot is the tree under test (env VERIF_REPO; default /repo).
+func repoRoot() string {
+	if r := os.Getenv("VERIF_REPO"); r != "" {
+		return r
+	}
+	return "/repo"
+}
 
 // testdataUniverses reads the repository's own npm test universes through the
 // verifx hook (sorted by name).
 func testdataUniverses() (map[string]*universe.NpmUniverse, error) {
+	testdataDir := repoRoot() + "/util/resolve/npm/testdata/"
 	a, err := verifx.ParseTestFiles(resolve.NPM,
 		testdataDir+"resolve_test.data", testdataDir+"resolve_test.want",
 		testdataDir+"derivedfrom_test.data", testdataDir+"derivedfrom_test.want",
